@@ -116,7 +116,7 @@ def get_code_from_bytes(codedata, version):
         None if the code data was not compressed. code is a bytestring.
     """
 
-    if version == 0 or bytes(codedata[:4]) != b':c:\x00':
+    if bytes(codedata[:4]) != b':c:\x00':
         # code is ASCII
 
         try:
